@@ -267,6 +267,24 @@ func runC15(c *core.Ctx) {
 	// ---------------- R15g pooled JavaScript VMs carry nothing from earlier transforms (= C20 R20a)
 	c20VMPool(c, "R15g")
 	c.Floor("R15g", 7, "VM pool discipline")
+	// ---------------- R15h nothing is memoised into the shared schema on the run path (= C14 R14a): a second transform of
+	// the same Schema must not see what the first one computed
+	if shared := c14SharedTypes(c); shared != nil {
+		n := c14SharedStores(c, repoFuncsIn(e.run), shared, "R15h", "R15h")
+		c.OK("R15h", "run-set store inventory against schema-owned types", 0, fmt.Sprintf("%d stores inspected", n))
+	}
+	// ---------------- R15i no dependence on the process's local time zone
+	c15LocalZone(c, e)
+	// ---------------- R15j process-wide caches are keyed by what their loaders read (= C13 R13b): a value cached by an
+	// earlier transform is only served for an identical key
+	var libFns []*ssa.Function
+	for _, f := range c.RepoFunctions() {
+		if !core.IsCLIOrSample(core.FuncPkg(f)) {
+			libFns = append(libFns, f)
+		}
+	}
+	c20LoaderPurity(c, "R15j", libFns)
+	c.Floor("R15j", 1, "getProgram")
 }
 
 // c15Taint follows a history-dependent value forward; returns a description of the first disallowed sink.
@@ -553,4 +571,124 @@ func callsSort(f *ssa.Function, depth int) bool {
 		}
 	}
 	return false
+}
+
+// c15LocalZone (R15i): time.Unix / time.UnixMilli / time.UnixMicro return a Time in the process's LOCAL zone, and
+// time.Now likewise. In run-set library code such a value must be normalised by (Time).In(loc) or (Time).UTC() before it
+// is formatted or handed to a repository function — otherwise the emitted text depends on TZ / /etc/localtime of the
+// process. Also no use of the time.Local variable and no (Time).Local() call.
+func c15LocalZone(c *core.Ctx, e *entrySets) {
+	n := 0
+	for _, f := range repoFuncsIn(e.run) {
+		if core.IsCLIOrSample(core.FuncPkg(f)) {
+			continue
+		}
+		for _, b := range f.Blocks {
+			for _, in := range b.Instrs {
+				for _, op := range in.Operands(nil) {
+					if g, ok := (*op).(*ssa.Global); ok && g.Pkg.Pkg.Path() == "time" && g.Name() == "Local" {
+						n++
+						c.Bad("R15i", core.FuncKey(f)+" uses time.Local", core.InstrPos(in), "the process's local time zone is read on the transform path")
+					}
+				}
+				ci, ok := in.(ssa.CallInstruction)
+				if !ok {
+					continue
+				}
+				o := core.CalleeObj(ci)
+				if o == nil || o.Pkg() == nil || o.Pkg().Path() != "time" {
+					continue
+				}
+				name := core.FuncName(o)
+				if name == "Time.Local" {
+					n++
+					c.Bad("R15i", core.FuncKey(f)+" calls Time.Local", core.InstrPos(in), "a time is converted to the process's local zone")
+					continue
+				}
+				if !(name == "Unix" || name == "UnixMilli" || name == "UnixMicro" || name == "Now") {
+					continue
+				}
+				call, ok := ci.(*ssa.Call)
+				if !ok {
+					continue
+				}
+				n++
+				key := core.FuncKey(f) + " zone of time." + name + " result"
+				bad, pos := c15LocalTimeEscapes(call, map[ssa.Value]bool{})
+				if bad != "" {
+					c.Bad("R15i", key, pos, "a time created by time."+name+" (process-local zone) reaches "+bad+" without (Time).In(loc) or (Time).UTC(): the emitted text depends on the process's time zone")
+				} else {
+					c.OK("R15i", key, core.InstrPos(call), "normalised by In/UTC (or only used through zone-independent accessors) before it is formatted")
+				}
+			}
+		}
+	}
+	if n == 0 {
+		c.Unresolved("R15i", "local-zone time sources", "no time.Unix/Now call found on the run path")
+	}
+	c.Floor("R15i", 2, "time.Unix in EpochToDateTimeRFC3339, time.Now in Now")
+}
+
+// c15LocalTimeEscapes follows a local-zone Time value: allowed uses are In/UTC (normalisation) and zone-independent
+// accessors (Unix*, Equal, Before, After, Sub, IsZero); phis and local cells are followed; anything else (Format, passing
+// to another function, returning, storing) is an escape.
+func c15LocalTimeEscapes(v ssa.Value, seen map[ssa.Value]bool) (string, token.Pos) {
+	if seen[v] {
+		return "", token.NoPos
+	}
+	seen[v] = true
+	for _, u := range core.Referrers(v) {
+		pos := core.InstrPos(u)
+		switch x := u.(type) {
+		case *ssa.DebugRef:
+		case *ssa.Phi:
+			if bad, p := c15LocalTimeEscapes(x, seen); bad != "" {
+				return bad, p
+			}
+		case *ssa.Store:
+			if a, ok := x.Addr.(*ssa.Alloc); ok && x.Val == v {
+				for _, ld := range loadsOfCell(a) {
+					if bad, p := c15LocalTimeEscapes(ld, seen); bad != "" {
+						return bad, p
+					}
+				}
+				// method calls on the addressable local (t.In(...) with t spilled) use the cell address as receiver
+				for _, r := range core.Referrers(a) {
+					if ci, ok := r.(ssa.CallInstruction); ok {
+						if bad := c15TimeCallKind(ci); bad != "" {
+							return bad, core.InstrPos(r)
+						}
+					}
+				}
+				continue
+			}
+			return "a stored location", pos
+		case ssa.CallInstruction:
+			if bad := c15TimeCallKind(x); bad != "" {
+				return bad, pos
+			}
+		case *ssa.Return:
+			return "a return value", pos
+		case *ssa.MakeInterface:
+			return "an interface value (formatting)", pos
+		default:
+			return fmt.Sprintf("%T", u), pos
+		}
+	}
+	return "", token.NoPos
+}
+
+func c15TimeCallKind(ci ssa.CallInstruction) string {
+	o := core.CalleeObj(ci)
+	if o == nil || o.Pkg() == nil {
+		return "a dynamic call"
+	}
+	if o.Pkg().Path() == "time" {
+		switch core.FuncName(o) {
+		case "Time.In", "Time.UTC", "Time.Unix", "Time.UnixNano", "Time.UnixMilli", "Time.UnixMicro", "Time.Equal", "Time.Before", "Time.After", "Time.Sub", "Time.IsZero", "Time.Nanosecond":
+			return ""
+		}
+		return "time." + core.FuncName(o)
+	}
+	return "a call of " + core.Rel(o.Pkg().Path()+"."+core.FuncName(o))
 }
